@@ -1,6 +1,5 @@
 use std::collections::HashSet;
 
-use itertools::Itertools;
 use pretty::DocAllocator;
 use typst_syntax::{ast::*, SyntaxKind, SyntaxNode};
 
@@ -106,9 +105,8 @@ impl<'a> PrettyPrinter<'a> {
             && import_items_nodes.iter().all(|node| !contains_comment(node))
             && check_import_name_duplication(&import_items_nodes)
         {
-            // Sort import items by their text representation, regardless of the blanks inside.
-            import_items_nodes
-                .sort_by_key(|&node| node.clone().into_text().split_whitespace().join(" "));
+            // Sort import items by their text as it will be printed, regardless of the blanks inside.
+            import_items_nodes.sort_by_cached_key(|&node| import_item_sort_key(node));
         }
         // Note that `ImportItem` does not implement `AstNode`.
         ListStylist::new(self)
@@ -189,4 +187,20 @@ fn check_import_name_duplication(import_items_nodes: &[&SyntaxNode]) -> bool {
         }
     }
     true // No duplicates found
+}
+
+/// The text of an import item without blanks, except around the keyword `as`.
+fn import_item_sort_key(node: &SyntaxNode) -> String {
+    fn collect(node: &SyntaxNode, key: &mut String) {
+        if node.children().len() > 0 {
+            node.children().for_each(|child| collect(child, key));
+        } else if node.kind() == SyntaxKind::As {
+            key.push_str(" as ");
+        } else if node.kind() != SyntaxKind::Space {
+            key.push_str(node.text());
+        }
+    }
+    let mut key = String::new();
+    collect(node, &mut key);
+    key
 }
